@@ -47,12 +47,51 @@ def check(ctx):
     ctx.rule("C09-H", "collapsed whitespace takes its tag with it: on every path of flush_word on which pending whitespace is "
              "discarded (wslen := 0 without being written), spacetag is cleared before the line is flushed — block padding is "
              "tagged with spacetag, so a stale one would put an inline element's annotations on the padding")
+    ctx.rule("C09-J", "an element's computed style travels on the node built for it: every reducer of the DOM walk that captured the "
+             "element's ComputedStyle returns only nodes built by RenderNode::new_styled with it")
     ctx.rule("C09-I", "padding is a run of its own carrying the tag it is given: TaggedLine::pad_to changes the line only through "
              "push_ws(n, tag) with the caller's tag and never grows an existing piece")
     for rid, fn in (("C09-A", rule_a), ("C09-B", rule_b), ("C09-C", rule_c), ("C09-D", rule_d),
                     ("C09-E", rule_e), ("C09-F", rule_f), ("C09-F", rule_f2), ("C09-C", rule_h), ("C09-G", rule_g),
-                    ("C09-H", rule_ws_tag), ("C09-I", rule_pad_tag)):
+                    ("C09-H", rule_ws_tag), ("C09-I", rule_pad_tag), ("C09-J", rule_styled_nodes)):
         ctx.guard(rid, fn)
+
+
+def rule_styled_nodes(ctx):
+    """An element's computed style travels on the node built for it: every closure of process_dom_node that captured the
+    element's ComputedStyle returns, whenever it returns a node at all, one built by RenderNode::new_styled — returning a
+    child instead (to 'save a level of nesting') drops the element's colours and white-space mode."""
+    F = ctx.facts
+    pdn = F.one("process_dom_node")
+    n = 0
+    for (cbb, i, cb, ops, fields) in closure_bodies_created_in(F, pdn):
+        tys = [pdn.local_ty(op_place(o)["l"]) if op_place(o) else "" for o in ops]
+        if not any("ComputedStyle" in t for t in tys):
+            continue
+        for x in sorted(cb.reachable()):
+            for st in cb.stmts(x):
+                rv = st.get("rv") or {}
+                if not (rv.get("agg") == "adt" and rv.get("variant") == "Some" and rv.get("ops")):
+                    continue
+                pl = op_place(rv["ops"][0])
+                ty = cb.local_ty(pl["l"]) if pl and not pl["p"] else ""
+                if not ty.startswith("RenderNode"):
+                    continue
+                n += 1
+                ctx.check(has_call(cb.atoms(rv["ops"][0]), "RenderNode::new_styled"), "C09-J", "styled-node@%s" % fn_key(cb), st["span"], cb.id,
+                          "this reducer captured the element's computed style but returns a node that was not built with it "
+                          "(RenderNode::new_styled): the element's colours / white-space never reach the renderer")
+        # a node handed back without being wrapped at all: the closure's result is the result of a call (`cs.pop()`, an
+        # iterator's `next()`, ...) rather than Some(new_styled(..)) / None
+        if "RenderNode" in cb.locals[0]["ty"]:
+            for x, t in cb.calls(lambda cd, t: True):
+                if t["dest"]["l"] == 0 and not t["dest"]["p"] and not ends(callee_def(t) or "", "from_residual"):
+                    n += 1
+                    ctx.check(has_call(cb.atoms({"c": {"l": 0, "p": []}}), "RenderNode::new_styled") and False, "C09-J",
+                              "styled-node@%s:returns-%s" % (fn_key(cb), callee_method(t)), t["span"], cb.id,
+                              "this reducer captured the element's computed style but returns the result of %s as it is: the "
+                              "element's own styled node is not built on that path" % callee_method(t))
+    ctx.floor("C09-J", "nodes returned by style-carrying reducers of process_dom_node", n, 15)
 
 
 def rule_pad_tag(ctx):
